@@ -318,6 +318,19 @@ fn big_fastq(rng: &Rng) -> Vec<u8> {
     v
 }
 
+/// one record beyond 64 KiB / 1 MiB / 8 MiB (see `gen::huge_input`), read to the end
+fn huge_scn(rng: &Rng, fmt: Fmt) -> ReadScn {
+    let (input, class, t) = huge_input(rng, fmt);
+    let cfg = huge_cfg(rng, t, input.len());
+    let n = input.iter().filter(|b| **b == if fmt == Fmt::Fasta { b'>' } else { b'@' }).count() + 3;
+    let ops = match rng.below(4) {
+        0 => vec![Op::ReadSet(0); n],
+        1 => (0..n).map(|_| Op::ReadSetExact(0, 2)).collect(),
+        _ => ops_next_to_end(n),
+    };
+    ReadScn { fmt, input, cfgs: vec![cfg], ops, mon: Monitors::default(), profile: class }
+}
+
 /// readers opened by path: tiny, empty and ordinary files, default or explicit capacity
 fn path_scn(rng: &Rng, fmt: Fmt, max_recs: usize, max_noise: usize) -> ReadScn {
     let (input, _) = any_input(rng, fmt, max_recs, max_noise);
@@ -335,6 +348,9 @@ pub fn gen_read_scn(id: &str, rng: &Rng, tier: Tier) -> ReadScn {
             let fmt = if id == "C01" { Fmt::Fasta } else { Fmt::Fastq };
             if rng.chance(1, 1500) {
                 return path_scn(rng, fmt, max_recs, max_noise);
+            }
+            if rng.chance(1, 3000) {
+                return huge_scn(rng, fmt);
             }
             if rng.chance(1, 4000) {
                 // interrupt storm / short reads into a large buffer
@@ -580,6 +596,9 @@ pub fn gen_read_scn(id: &str, rng: &Rng, tier: Tier) -> ReadScn {
             ReadScn { fmt, input, cfgs: vec![cfg], ops, mon, profile: class.into() }
         }
         "C17" => {
+            if rng.chance(1, 3000) {
+                return huge_scn(rng, Fmt::Fastq);
+            }
             let fmt = if rng.chance(2, 5) { Fmt::Fasta } else { Fmt::Fastq };
             let (input, class, defect_at) = match fmt {
                 Fmt::Fasta => {
